@@ -263,6 +263,7 @@ Definition next (s : tstate) : res (option token) :=
           match ot with
           | Some t => R (Some t) s1
           | None =>
+              if Nat.ltb (length (errs s)) (length (errs s1)) then R None s1 else   (* the read itself failed *)
               match tr_unread_byte s1 with
               | None => RPanic
               | Some s2 =>
